@@ -434,13 +434,17 @@ func (cs *connState) LookupFID(fid fid) (*fidRef, bool) {
 // the slot already it is closed, per the specification.
 func (cs *connState) InsertFID(fid fid, newRef *fidRef) {
 	cs.fidMu.Lock()
-	defer cs.fidMu.Unlock()
 	origRef, ok := cs.fids[fid]
-	if ok {
-		defer origRef.DecRef()
-	}
 	newRef.IncRef()
 	cs.fids[fid] = newRef
+	cs.fidMu.Unlock()
+
+	// Drop the replaced reference without holding fidMu: this may call
+	// Close on the backend, which must not stall the other requests of
+	// this connection.
+	if ok {
+		origRef.DecRef()
+	}
 }
 
 // Deletefid removes the given fid.
@@ -448,12 +452,16 @@ func (cs *connState) InsertFID(fid fid, newRef *fidRef) {
 // This simply removes it from the map and drops a reference.
 func (cs *connState) DeleteFID(fid fid) error {
 	cs.fidMu.Lock()
-	defer cs.fidMu.Unlock()
 	fidRef, ok := cs.fids[fid]
+	if ok {
+		delete(cs.fids, fid)
+	}
+	cs.fidMu.Unlock()
 	if !ok {
 		return linux.EBADF
 	}
-	delete(cs.fids, fid)
+
+	// As in InsertFID, the reference is dropped without holding fidMu.
 	return fidRef.DecRef()
 }
 
